@@ -233,7 +233,7 @@ def draw_grid(rng, n=None, families=GRID_FAMILIES, lattice=False, nmax=40):
     if fam == "single":
         n = 2
     elif n is None:
-        n = rng.choice([2, 3, 4, 5, 8, 12, 20, nmax])
+        n = rng.choice([2, 3, 4, 5, 8, 12, 20, nmax, 1] if rng.random() < 0.15 else [2, 3, 4, 5, 8, 12, 20, nmax])
     T = 10.0 ** rng.uniform(-3, 1.5)
     t0 = 0.0 if rng.random() < 0.6 else 10.0 ** rng.uniform(-3, 1)
     if fam in ("uniform", "single"):
